@@ -14,7 +14,7 @@ PROPERTY = {
         'termination monitor: more than 1000 get_node look-ups during one build of a <= 12-node config under a recursion limit of (current depth + 160) frames means divergence: a cycle through containers recurses and ends in RecursionError -> EvalError after fewer look-ups than frames (the chain-following loop is deterministic in the current node); every refuted path is replayed natively under a wall-clock watchdog, a native hang is reported as the violation',
         'reference graphs are over the listed positions only',
     ],
-    'bounds': {'positions': "ref slots a, b (top level), m.x (in a mapping), l[1] (in a list), c (argument of a !call), z (second source); targets: a, b, m.x, l[1], m, l, d, d.v, c, missing",
+    'bounds': {'positions': "ref slots a, b (top level), m.x (in a mapping), l[1] (in a list), c (argument of a !call), z (second source); targets: a, b, m.x, l[1], m, l, d, d.v, c, missing; data positions hold non-empty containers or (variant) EMPTY lists / mappings",
                'quick': '3 symbolic slots (a, b, m.x) + fixed slots', 'thorough': '4 symbolic slots'},
     'outside': ['reference graphs with more than 6 reference nodes', 'references in !eval code (C12) and in included files (C06)'],
     'hang_is_violation': True,
@@ -114,10 +114,15 @@ def c09_graph(split, ta, tb, tm, tl):
         t = edges[slot]
         return data if t is None else ("!xref '%s'" % t)
     tag = '!ref' if split.get('ref_tag') else '!xref'
-    doc1 = ('a: %s\nm: {x: %s, y: 5}\nl: [7, %s]\nc: !call:engine.targets.ident {x: %s}\nb: %s\nd: {v: [1, 2]}\ns: s\n'
-            % (val('a', '[10]'), val('m.x', '{q: 11}'), val('l[1]', '[12]'), val('c', '[13]'), val('b', '{w: 14}')))
+    if split.get('empty'):
+        # every data position holds an EMPTY container: the evaluated targets are falsy objects, identity still has to hold
+        doc1 = ('a: %s\nm: {x: %s, y: 5}\nl: [7, %s]\nc: !call:engine.targets.ident {x: %s}\nb: %s\nd: {v: []}\ns: s\n'
+                % (val('a', '[]'), val('m.x', '{}'), val('l[1]', '[]'), val('c', '[]'), val('b', '{}')))
+    else:
+        doc1 = ('a: %s\nm: {x: %s, y: 5}\nl: [7, %s]\nc: !call:engine.targets.ident {x: %s}\nb: %s\nd: {v: [1, 2]}\ns: s\n'
+                % (val('a', '[10]'), val('m.x', '{q: 11}'), val('l[1]', '[12]'), val('c', '[13]'), val('b', '{w: 14}')))
     doc1 = doc1.replace('!xref', tag)
-    doc2 = 'z: %s\n' % val('z', '[15]')
+    doc2 = 'z: %s\n' % val('z', '[]' if split.get('empty') else '[15]')
     note(doc1=doc1, doc2=doc2)
     exp = _oracle(edges)
     note(expected=repr(exp))
@@ -222,10 +227,14 @@ def _splits(tier):
         for lfix, c, z in ((0, 1, 9), (4, 3, 8)):
             for a in range(nt + 1):
                 out.append({'fixed': {'l[1]': lfix, 'a': (a if a < nt else -1)}, 'c': c, 'z': z})
+                if lfix == 0:
+                    out.append({'fixed': {'l[1]': lfix, 'a': (a if a < nt else -1)}, 'c': c, 'z': z, 'empty': True})
         return out
     for c, z in ((-1, 0), (1, 7), (3, 9)):
         for a in range(nt + 1):
             out.append({'fixed': {'a': (a if a < nt else -1)}, 'c': c, 'z': z})
+            if c == 1:
+                out.append({'fixed': {'a': (a if a < nt else -1)}, 'c': c, 'z': z, 'empty': True})
     return out
 
 
